@@ -109,22 +109,26 @@ func runC13Stall(nch, victim, n1, n2, n3, incoming int, useFrames bool) error {
 	}
 	counter := 0
 	write := func() error {
-		start := time.Now()
-		var err error
-		if useFrames {
-			fr, _ := fwdFrameCounter(counter)
-			err = n.WriteFrameAll(fr)
-		} else {
-			err = n.WriteMessageAll(&common.MessageDebug{TimeBootMs: uint32(counter), Ind: 1})
-		}
+		c := counter
 		counter++
-		if err != nil {
-			return fmt.Errorf("write %d returned %v", counter-1, err)
+		done := make(chan error, 1)
+		go func() {
+			if useFrames {
+				fr, _ := fwdFrameCounter(c)
+				done <- n.WriteFrameAll(fr)
+			} else {
+				done <- n.WriteMessageAll(&common.MessageDebug{TimeBootMs: uint32(c), Ind: 1})
+			}
+		}()
+		select {
+		case err := <-done:
+			if err != nil {
+				return fmt.Errorf("write %d returned %v", c, err)
+			}
+			return nil
+		case <-time.After(bound / 2):
+			return fmt.Errorf("write %d did not return within %v while channel %d is blocked: the stalled channel stalls the node (its backlog is not bounded / not dropping)", c, bound/2, victim)
 		}
-		if d := time.Since(start); d > bound/2 {
-			return fmt.Errorf("write %d took %v: the node loop was stalled", counter-1, d)
-		}
-		return nil
 	}
 	others := func(f func(i int, p *sim.Pipe) error) error {
 		for i, p := range pipes {
